@@ -112,7 +112,8 @@ func c26Send(p *c26Ps, mt messages.MessageType, payload []byte) {
 }
 
 // operator actions on the running policy (the reloadpolicy / allow-list RPCs) before the refund
-var c26OperatorOps = []string{"reload", "allow_other", "remove_other", "disable_enable"}
+// (suspect_greater / suspect_smaller: another peer, with a pubkey sorting after / before this one, has been quarantined earlier)
+var c26OperatorOps = []string{"reload", "allow_other", "remove_other", "disable_enable", "suspect_greater", "suspect_smaller"}
 
 const c26Other = "03cccccccccccccccccccccccccccccccccccccccccccccccccccccccccccccccc"
 
@@ -186,6 +187,10 @@ func c26Apply(x *scn.Exec, e mc.Event) bool {
 			if err = pol.DisableSwaps(); err == nil {
 				err = pol.EnableSwaps()
 			}
+		case "suspect_greater":
+			err = pol.AddToSuspiciousPeerList(c26Other) // 03cc.. > 03bb..
+		case "suspect_smaller":
+			err = pol.AddToSuspiciousPeerList(scn.IDC) // 02cc.. < 03bb..
 		}
 		// whether the operator action itself works is C25's business; here only the quarantine is judged
 		_ = err
